@@ -102,6 +102,7 @@ func (l *lexer) Lex(lval *yySymType) int {
 		lval.op = ops[tok]
 		return tok
 	case lexError:
+		verifPoint(2, l.cancel)
 		l.Error(string(tok))
 	}
 	return 0
